@@ -175,7 +175,7 @@ func genC10(t *rapid.T) c10Case {
 func init() { register("C10", checkC10) }
 
 func TestC10(t *testing.T) {
-	runProp(t, "C10", checkC10, nil, part[c10Case]{"value-grammar", scale(15000, 150000), genC10})
+	runProp(t, "C10", checkC10, nil, part[c10Case]{"value-grammar", scale(40000, 150000), genC10})
 }
 
 // FuzzC10 is the coverage-guided byte-level search (thorough tier).
